@@ -40,6 +40,24 @@ class TST_P {
         [In(false), Out, EmbeddedInstance("TST_E")] string oe, [In(false), Out] boolean ob,
         [In(false), Out] datetime od, [In(false), Out] real64 ox, [In(false), Out] sint64 oi,
         [In(false), Out] char16 oc, [In(false), Out] string osa[], [In(false), Out] TST_P REF ora[]);
+    [Static] uint32 SOut([In] uint32 seed,
+        [In(false), Out] boolean ob, [In(false), Out] boolean oba[], [In(false), Out] string os,
+        [In(false), Out] string osa[], [In(false), Out] uint8 oa[], [In(false), Out] sint64 oi,
+        [In(false), Out] sint64 oia[], [In(false), Out] real64 ox, [In(false), Out] real64 oxa[],
+        [In(false), Out] real32 of32, [In(false), Out] real32 ofa[], [In(false), Out] datetime od,
+        [In(false), Out] datetime oda[], [In(false), Out] char16 oc, [In(false), Out] char16 oca[],
+        [In(false), Out] TST_P REF orf, [In(false), Out] TST_P REF ora[],
+        [In(false), Out, EmbeddedInstance("TST_E")] string oe,
+        [In(false), Out, EmbeddedInstance("TST_E")] string oea[], [In(false), Out] uint64 ou64a[]);
+    [Static] boolean RBool([In] uint32 seed);
+    [Static] string RStr([In] uint32 seed);
+    [Static] datetime RDt([In] uint32 seed);
+    [Static] real64 RReal([In] uint32 seed);
+    [Static] real32 RReal32([In] uint32 seed);
+    [Static] sint64 RInt([In] uint32 seed);
+    [Static] uint8 RU8([In] uint32 seed);
+    [Static] char16 RChar([In] uint32 seed);
+    [Static, EmbeddedInstance("TST_E")] string REmb([In] uint32 seed);
 };
 class TST_Q : TST_P { [Description("extra \\"q\\" & <x>")] string extra; };
 [Association] class TST_L { [Key] TST_P REF parent; [Key] TST_P REF child; string note; };
@@ -50,7 +68,64 @@ ECHO = {'s': 'os', 'a': 'oa', 'r': 'orf', 'e': 'oe', 'b': 'ob', 'd': 'od', 'x': 
 OUT_TYPES = {'os': ('string', False, None), 'oa': ('uint8', True, None), 'orf': ('reference', False, None),
              'oe': ('string', False, 'instance'), 'ob': ('boolean', False, None), 'od': ('datetime', False, None),
              'ox': ('real64', False, None), 'oi': ('sint64', False, None), 'oc': ('char16', False, None),
-             'osa': ('string', True, None), 'ora': ('reference', True, None)}
+             'osa': ('string', True, None), 'ora': ('reference', True, None),
+             'oba': ('boolean', True, None), 'oia': ('sint64', True, None), 'oxa': ('real64', True, None),
+             'of32': ('real32', False, None), 'ofa': ('real32', True, None), 'oda': ('datetime', True, None),
+             'oca': ('char16', True, None), 'oea': ('string', True, 'instance'), 'ou64a': ('uint64', True, None)}
+RET_TYPES = {'rbool': 'boolean', 'rstr': 'string', 'rdt': 'datetime', 'rreal': 'real64', 'rreal32': 'real32',
+             'rint': 'sint64', 'ru8': 'uint8', 'rchar': 'char16', 'remb': 'einst'}
+
+
+def gen_value(r, ty, eo=None):
+    """one non-NULL value of a CIM type for method results, drawn from the seeded generator `r`"""
+    import pywbem
+    if eo == 'instance' or ty == 'einst':
+        return pywbem.CIMInstance('TST_E', properties={'a': r.choice(['x', 'in & <out>', '']),
+                                                       'n': pywbem.Uint16(r.choice([0, 7, 65535]))})
+    if ty == 'boolean':
+        return r.random() < 0.5
+    if ty == 'string':
+        return r.choice(['', 'a', ' b&<>"\' ', 'TRUE', 'false', 'é😀', 'tab\tnl\n'])
+    if ty == 'char16':
+        return pywbem.Char16(r.choice(['a', '<', 'é', ' ']))
+    if ty == 'datetime':
+        return pywbem.CIMDateTime(r.choice(['20140924193040.654321+120', '00000010010203.000004:000',
+                                            '20000229000000.000***-300']))
+    if ty == 'real64':
+        return pywbem.Real64(r.choice([0.0, 0.1, 1e16, -2.5e-300, float('inf'), 3.0]))
+    if ty == 'real32':
+        return pywbem.Real32(r.choice([0.0, 0.5, -1.25, 3.0e10]))
+    if ty == 'reference':
+        return pywbem.CIMInstanceName('TST_P', keybindings={'name': r.choice(['p0', 'a&b', ''])},
+                                      namespace=r.choice(['root/a', 'root/b']), host=r.choice([None, 'h.example']))
+    lim = cimgen.INT_LIMITS[ty]
+    return getattr(pywbem, ty.capitalize())(r.choice([lim[0], lim[1], 0, 1]))
+
+
+def gen_outs(seed):
+    """output parameters of SOut for a seed: every type as scalar and array, NULL scalars, NULL items, empty arrays,
+    FALSE booleans"""
+    import pywbem
+    r = random.Random(seed)
+    outs = []
+    for name in ('ob', 'oba', 'os', 'osa', 'oa', 'oi', 'oia', 'ox', 'oxa', 'of32', 'ofa', 'od', 'oda', 'oc', 'oca',
+                 'orf', 'ora', 'oe', 'oea', 'ou64a'):
+        if r.random() < 0.45:
+            continue
+        t, arr, eo = OUT_TYPES[name]
+        if arr:
+            x = r.random()
+            if x < 0.1:
+                v = None
+            elif x < 0.25:
+                v = []
+            else:
+                v = [None if (r.random() < 0.2 and t != 'reference' and eo is None) else gen_value(r, t, eo)
+                     for _ in range(r.choice([1, 2, 3]))]
+        else:
+            v = None if r.random() < 0.1 else gen_value(r, t, eo)
+        outs.append(pywbem.CIMParameter(name, t, value=v, is_array=arr, embedded_object=eo))
+    return outs
 
 
 def _echo_provider_class():
@@ -61,7 +136,16 @@ def _echo_provider_class():
         provider_classnames = 'TST_P'
 
         def InvokeMethod(self, methodname, localobject, params):
-            if methodname.lower() not in ('secho', 'iecho'):
+            mn = methodname.lower()
+            seed = int(params['seed'].value) if 'seed' in params and params['seed'].value is not None else 0
+            if mn == 'sout':
+                return pywbem.Uint32(seed % 7), gen_outs(seed)
+            if mn in RET_TYPES:
+                r = random.Random(seed)
+                if r.random() < 0.1:
+                    return None, []
+                return gen_value(r, RET_TYPES[mn]), []
+            if mn not in ('secho', 'iecho'):
                 raise pywbem.CIMError(pywbem.CIM_ERR_METHOD_NOT_AVAILABLE)
             outs = []
             for pn, p in params.items():
@@ -492,6 +576,51 @@ def run_history(sizes, seed, ops, default_namespace='root/a'):
     direct_log = []
     spy_calls(B, direct_log)
     return _run(ops, client, ad, B, direct_log)
+
+
+def repo_state(fake):
+    """canonical content of a mock repository (instances with values, class names, qualifier names per namespace)"""
+    out = {}
+    for ns in sorted(fake.namespaces):
+        insts = []
+        try:
+            classes = sorted(fake.EnumerateClassNames(namespace=ns, DeepInheritance=True), key=str.lower)
+        except Exception:  # noqa
+            classes = []
+        for cn in classes:
+            try:
+                for i in fake.EnumerateInstances(cn, namespace=ns, DeepInheritance=False):
+                    insts.append(json.dumps(canon_result(i), sort_keys=True))
+            except Exception:  # noqa
+                pass
+        try:
+            quals = sorted(q.name.lower() for q in fake.EnumerateQualifiers(namespace=ns))
+        except Exception:  # noqa
+            quals = []
+        out[ns] = {'classes': [c.lower() for c in classes], 'instances': sorted(insts), 'qualifiers': quals,
+                   'contexts': len(fake._mainprovider.enumeration_contexts)}
+    return out
+
+
+def run_http_history(sizes, seed, ops, default_namespace, fault):
+    """the history through a REAL loopback HTTP server in front of the facade (whole client stack incl. urllib3
+    retry logic), with lost replies as given by `fault` = {request index: 'drop' | 'truncate'}.
+    Returns (steps, requests seen per step, repository states (server, twin))"""
+    A = build(sizes, seed)
+    B = build(sizes, seed)
+    B.default_namespace = default_namespace
+    srv = facade.HttpFacade(A, fault=fault)
+    try:
+        client = srv.client(default_namespace=default_namespace)
+        direct_log = []
+        orig_i, orig_m = B._imethodcall, B._methodcall
+        spy_calls(B, direct_log)
+        steps = _run(ops, client, srv, B, direct_log)
+        B._imethodcall, B._methodcall = orig_i, orig_m
+        states = (repo_state(A), repo_state(B))
+    finally:
+        srv.close()
+    return steps, states
 
 
 def run_scripted(ops, scripts, default_namespace='root/a'):
